@@ -300,8 +300,9 @@ pub fn run_batch<C: Check>(check: &C, ctx: &Ctx, stream: &str, n: usize, open: &
     }
     let slots: Mutex<Vec<Option<Slot>>> = Mutex::new((0..n).map(|_| None).collect());
     let sid = rng::stream_id(&format!("{}/{}", check.id(), stream));
-    let max_fail = 6usize;
+    let max_fail = std::env::var("VERIF_MAXFAIL").ok().and_then(|s| s.parse::<usize>().ok()).unwrap_or(6);
     let fail_count = AtomicUsize::new(0);
+    let trace_runs = std::env::var("VERIF_TRACE_RUNS").is_ok();
     std::thread::scope(|sc| {
         for _ in 0..ctx.threads.min(n.max(1)) {
             sc.spawn(|| {
@@ -312,6 +313,9 @@ pub fn run_batch<C: Check>(check: &C, ctx: &Ctx, stream: &str, n: usize, open: &
                     let i = next.fetch_add(1, Ordering::Relaxed);
                     if i >= n {
                         break;
+                    }
+                    if trace_runs {
+                        eprintln!("RUN {}", i);
                     }
                     let seed_i = rng::derive(ctx.seed, sid, i as u64);
                     let mut r = Rng::new(seed_i);
@@ -581,6 +585,12 @@ pub fn run_check<C: Check>(
     }
     for (f, v) in extra_fail {
         all.push((u64::MAX - 1, f, v));
+    }
+    if std::env::var("VERIF_TRIAGE").is_ok() {
+        for (run, f, _) in all.iter() {
+            println!("TRIAGE run={} clause={} observed={} detail={}", run, f.clause, f.observed, serde_json::to_string(&f.detail).unwrap_or_default().chars().take(700).collect::<String>());
+        }
+        all.clear();
     }
     for (run, f, scn_v) in all.iter() {
         // report at most 2 replay files per clause
